@@ -32,13 +32,67 @@ func closureArg(info *types.Info, fd *ast.FuncDecl, calleeSuffix string) *ast.Fu
 			return true
 		}
 		for _, a := range call.Args {
-			if fl, ok := a.(*ast.FuncLit); ok {
+			if fl := funcLitOf(info, fd, a); fl != nil {
 				out = fl
 			}
 		}
 		return true
 	})
 	return out
+}
+
+// declResolver finds the declaration of a module function (set by NewCtx).
+var declResolver func(fn *types.Func) *load.FuncInfo
+
+// funcLitOf: the function literal an argument denotes - the literal itself, a local bound exactly
+// once to a literal (decide := func(...) {...}), or a declared function or method value of the
+// same package (presented as a literal over its body).
+func funcLitOf(info *types.Info, fd *ast.FuncDecl, a ast.Expr) *ast.FuncLit {
+	switch x := a.(type) {
+	case *ast.FuncLit:
+		return x
+	case *ast.ParenExpr:
+		return funcLitOf(info, fd, x.X)
+	case *ast.IndexExpr: // generic instantiation f[T]
+		return funcLitOf(info, fd, x.X)
+	case *ast.Ident:
+		switch obj := info.ObjectOf(x).(type) {
+		case *types.Var:
+			var lit *ast.FuncLit
+			defs := 0
+			ast.Inspect(fd.Body, func(m ast.Node) bool {
+				as, isAs := m.(*ast.AssignStmt)
+				if !isAs || len(as.Lhs) != len(as.Rhs) {
+					return true
+				}
+				for i, l := range as.Lhs {
+					if lid, isL := l.(*ast.Ident); isL && info.ObjectOf(lid) == obj {
+						defs++
+						if fl, isLit := as.Rhs[i].(*ast.FuncLit); isLit {
+							lit = fl
+						}
+					}
+				}
+				return true
+			})
+			if defs == 1 {
+				return lit
+			}
+		case *types.Func:
+			if declResolver != nil {
+				if dfi := declResolver(obj.Origin()); dfi != nil && dfi.Decl.Body != nil {
+					return &ast.FuncLit{Type: dfi.Decl.Type, Body: dfi.Decl.Body}
+				}
+			}
+		}
+	case *ast.SelectorExpr:
+		if fn, ok := info.Uses[x.Sel].(*types.Func); ok && declResolver != nil {
+			if dfi := declResolver(fn.Origin()); dfi != nil && dfi.Decl.Body != nil {
+				return &ast.FuncLit{Type: dfi.Decl.Type, Body: dfi.Decl.Body}
+			}
+		}
+	}
+	return nil
 }
 
 // retAction: the single returned/sent value of the unique selected path as an action name.
